@@ -263,6 +263,10 @@ func (c *Ctx) requestSites() ([]*reqSite, []string) {
 					s2 := *s
 					s2.QoS = q
 					s2.Q = PathQ{BlockEdge: c.qosEdgeFilter(f, s.Msg, q)}
+					// a function with one PUBLISH write per QoS level: this write belongs to the levels that reach it
+					if _, reaches := CanReach(f, nil, func(in ssa.Instruction) bool { return in == ssa.Instruction(w) }, s2.Q); !reaches {
+						continue
+					}
 					s2.Name = fmt.Sprintf("%s[QoS%d]", FuncName(f), q)
 					switch q {
 					case 1:
